@@ -96,11 +96,24 @@ def rule_result_kind(model: Model):
     control- or data-dependent on the flag."""
     f = model.func("_amen._amen_mm_python")
     obs = []
-    if "to_ttm" not in f.params():
-        return [Ob("RESULT-SHAPE", "_amen._amen_mm_python:RESULT-KIND:flag", ERROR, model.where(f), "to_ttm", "parameter to_ttm vanished")]
+    # the kind flag: the parameter that amen_mm passes as True and amen_mv as False (whatever it is called)
+    flag = None
+    vals = {}
+    for caller in ("_amen.amen_mm", "_amen.amen_mv"):
+        cf = model.func(caller)
+        for c in ast.walk(cf.node):
+            if isinstance(c, ast.Call) and norm(c.func).endswith("_amen_mm_python"):
+                for i, a in enumerate(c.args):
+                    if isinstance(a, ast.Constant) and isinstance(a.value, bool):
+                        vals.setdefault(i, set()).add(a.value)
+    for i, v in vals.items():
+        if v == {True, False} and i < len(f.params()):
+            flag = f.params()[i]
+    if flag is None:
+        return [Ob("RESULT-SHAPE", "_amen._amen_mm_python:RESULT-KIND:flag", ERROR, model.where(f), "kind flag", "the parameter that tells amen_mm from amen_mv was not found")]
 
     def mentions(e):
-        return any(isinstance(x, ast.Name) and x.id == "to_ttm" for x in ast.walk(e))
+        return any(isinstance(x, ast.Name) and x.id == flag for x in ast.walk(e))
     parents = {}
     for n in ast.walk(f.node):
         for c in ast.iter_child_nodes(n):
@@ -119,8 +132,8 @@ def rule_result_kind(model: Model):
             defs = [a for a in ast.walk(f.node) if isinstance(a, ast.Assign) and any(isinstance(t, ast.Name) and t.id == r.value.id for t in a.targets)]
             ok = bool(defs) and all(under_flag(a) or mentions(a.value) for a in defs)
         obs.append(Ob("RESULT-SHAPE", f"_amen._amen_mm_python:RESULT-KIND:return{i}", OK if ok else VIOLATED, model.where(f, r), norm(r)[:80],
-                      "returned value depends on to_ttm (3-axis cores for amen_mv, 4-axis cores for amen_mm)" if ok else
-                      "this return does not depend on `to_ttm`: amen_mv (to_ttm=False) would receive the 4-axis cores of an operator - a TT matrix of shape "
+                      "returned value depends on the kind flag (3-axis cores for amen_mv, 4-axis cores for amen_mm)" if ok else
+                      "this return does not depend on the kind flag: amen_mv (to_ttm=False) would receive the 4-axis cores of an operator - a TT matrix of shape "
                       "[(M_k, 1)] instead of a TT tensor of shape M"))
     return obs
 
@@ -129,7 +142,7 @@ def check(model: Model, tier: str):
     obs = []
     for fs in ("_dmrg.dmrg_matvec_python", "_dmrg.dmrg_hadamard_python", "_amen._amen_mm_python"):
         obs += rule_empty_reduce(model, fs)
-    exc = {("_amen._amen_mm_python", "sig:for:range(nswp)"): "read only in the verbose report after a zero-sweep run (nswp = 0)",
+    exc = {("_amen._amen_mm_python", "sig:for:range(_)"): "read only in the verbose report after a zero-sweep run (nswp = 0)",
            ("_amen._amen_mm_python", "sig:=binop | =call:datetime.datetime.now"): "verbose timing only", ("_amen._amen_mm_python", "sig:=binop | =call:datetime.datetime.now"): "verbose timing only"}
     obs += rules.rule_defassign(model, [model.func(a) for a in ANCHORS], exc)
     obs += rule_result_shape(model)
